@@ -220,6 +220,12 @@ def cut_loop(it, node, env, spec, iterable):
                 continue
             if isinstance(o, (VList, VDict, VSet)):
                 objs.append(o)
+        # containers the body mutates through a local alias bound inside the body (modData = outDict['oids']): the
+        # contract names them as expressions over the entry state
+        for ex in spec.get('mutates', []):
+            o = spec_eval(it, ex, env)
+            if isinstance(o, (VList, VDict, VSet)):
+                objs.append(o)
         attr_targets = []
         for a in attrs:
             try:
